@@ -9,7 +9,7 @@ mod drivers;
 pub mod exact;
 mod rng;
 
-use drivers::{call, static_len, Ctx, Fx, Part, Plan, Token, BIG_STATIC2, DIMS1, DIMS2, SCALARS, SHAPE};
+use drivers::{call, handed, static_len, Ctx, Fx, Part, Plan, Token, BIG_STATIC2, DIMS1, DIMS2, SCALARS, SHAPE};
 use exact::{Dy, Poly};
 use rng::{mix, Rng};
 use serde::{Deserialize, Serialize};
@@ -119,6 +119,8 @@ pub enum Class {
     Reentrancy,
     /// K6
     CallCount,
+    /// K9: the closure was handed another point than the caller passed
+    WrongPoint,
     UnexpectedFailure,
 }
 
@@ -156,7 +158,8 @@ fn build_fx(sc: &Scenario) -> Fx {
     let (a, b): (Vec<f64>, Vec<[f64; 2]>) = if sc.simple {
         ((0..nv).map(|i| (i + 1) as f64).collect(), (0..nv).map(|i| if i % 2 == 0 { [1.0, 0.0] } else { [-1.0, 2.0] }).collect())
     } else {
-        let a = (0..nv).map(|_| (r.below(9) as f64 - 4.0) / 2.0).collect();
+        // a coordinate that is zero is -0.0 one time in three (K9: the closure must be handed the caller's point, sign included)
+        let a = (0..nv).map(|_| { let v = (r.below(9) as f64 - 4.0) / 2.0; if v == 0.0 && r.chance(330) { -0.0 } else { v } }).collect();
         // one variable in three carries no direction at all (for T = DualDVec64: an absent part)
         let b = (0..nv).map(|_| if r.chance(330) { [0.0, 0.0] } else { [(r.below(9) as f64 - 4.0) / 2.0, (r.below(9) as f64 - 4.0) / 2.0] }).collect();
         (a, b)
@@ -381,6 +384,11 @@ pub fn run_case(case: &Case) -> Outcome {
                 out.violation = Some((why, format!("{name}: {d}{}", if reenter { " - after the closure called the same driver again" } else { "" })));
             } else if calls != 1 {
                 out.violation = Some((Class::CallCount, format!("{name} invoked the closure {calls} times")));
+            } else if *ctx.seen.borrow() != handed(&sc.scalar, &fx) {
+                let (seen, want) = (ctx.seen.borrow().clone(), handed(&sc.scalar, &fx));
+                let i = seen.iter().zip(&want).position(|(a, b)| a != b).unwrap_or(seen.len().min(want.len()));
+                let raw = |p: Option<&Part>| p.map_or("nothing".to_string(), |p| format!("{:?}{}", f64::from_bits(p.0), match (p.1, p.2) { (Some(e), None) => format!(" + {:?}ε", f64::from_bits(e)), (Some(e), Some(e2)) => format!(" + [{:?}, {:?}]ε", f64::from_bits(e), f64::from_bits(e2)), _ => String::new() }));
+                out.violation = Some((Class::WrongPoint, format!("{name} evaluated its closure at another point than the one it was given: the real part of variable {i} handed to the closure is {}, the caller passed {} ({} variables handed over, {} passed)", raw(seen.get(i)), raw(want.get(i)), seen.len(), want.len())));
             } else if reenter {
                 match ctx.inner.borrow().as_ref() {
                     Some(Ok(inner)) => {
@@ -974,7 +982,7 @@ calls the same driver again before / after evaluating), each followed by three f
             "determinism_check": { "scenarios": det_values, "cases": d1.cases, "thread_partitions": [threads, 3], "digest_equal": deterministic, "digest": format!("{:016x}", d1.digest) },
             "real_components": ["the twenty driver functions (seeding, extraction, transposes)", "all dual arithmetic the closure performs (DualVec, Dual2Vec, HyperDualVec, Dual, Dual2, Dual3, HyperDual, HyperHyperDual over f64, f32 and Dual64)", "nalgebra static and dynamic storage"],
             "stubbed_components": ["the user closure's behaviour besides computing: returning an error, panicking, re-entering the driver - and when"],
-            "invariants": ["K1 every component equals the exact reference in the documented position and orientation", "K2 try_ variants with a succeeding closure return what the infallible variants return", "K3 an Err of the closure comes back as that very error", "K4 a panic of the closure arrives with its payload and leaves nothing behind", "K5 a nested call of the same driver changes neither result", "K6 the closure is invoked exactly once", "K8 a result the closure builds by hand comes back part for part, whatever combination of its derivative parts is present", "K7 (inexact family) multiplying the function by a power of two multiplies every component of the result by it, exactly, up to the top of the float range"],
+            "invariants": ["K1 every component equals the exact reference in the documented position and orientation", "K2 try_ variants with a succeeding closure return what the infallible variants return", "K3 an Err of the closure comes back as that very error", "K4 a panic of the closure arrives with its payload and leaves nothing behind", "K5 a nested call of the same driver changes neither result", "K6 the closure is invoked exactly once", "K9 the closure is handed the point the caller passed: every real part, with all its components and the sign of a zero, bit for bit", "K8 a result the closure builds by hand comes back part for part, whatever combination of its derivative parts is present", "K7 (inexact family) multiplying the function by a power of two multiplies every component of the result by it, exactly, up to the top of the float range"],
             "known_findings_hit": known_hits,
             "unlisted_finding_keys": unknown_keys,
             "fault_table_enumerated_completely_per_scenario": true,
